@@ -33,6 +33,17 @@ open SpsdkVerif SpsdkVerif.Crypto
 open SpsdkVerif.Misc (beEnc beDec leEnc leDec reverseBytesInLongs reverseBits)
 open SpsdkVerif.Generated.FlashEncConsts
 
+/-! ## Literals of the hand model.  In the source these facts are spelled only as arithmetic inside loop bodies
+    (`(align >> (i * 2)) & 0x03`, `scrambled[(long_ix * 4) + j]`, `address >> 12`, `base_address >> 4`, `start_addr >> 4`);
+    there is no shape-independent way to extract them statically, so they are NOT generated: the correspondence and the
+    hardware oracle tie them to the code (a change there gives a concrete failing input). -/
+def otfadScrambleSelMask : Nat := 3
+def otfadScrambleSelBits : Nat := 2
+def otfadScrambleWord : Nat := 4
+def ieeTweakShift : Nat := 12
+def ieeCtrAddrShift : Nat := 4
+def beeCtrAddrShift : Nat := 4
+
 /-! ## Shared helpers -/
 
 /-- Python `data[:i] + x + data[j:]` — the bytearray slice assignment `data[i:j] = x` (for `i ≤ j`) -/
